@@ -156,14 +156,12 @@ theorem enter_ok (P : Prog) (ee : EE) : (f : Nat) → (st : Stmt) → (env : Env
       · exact (EnterOk.stuck _ _).of_same_left hs
       · split
         · exact EnterOk.fin_same hs
-        · split
-          · exact (EnterOk.stuck _ _).of_same_left hs
-          · rename_i n _ _ _
-            have h := enterCalls_ok P ee f (List.replicate n.num.toNat c) env false
-              (fun k => (v, k) :: env.binds) 0 (s.readLimit ee lim env.ctx).2.pend.length true (s.readLimit ee lim env.ctx).2
-            split
-            · rename_i hall; exact (h.toFin hall).of_same_left hs
-            · exact h.toPar.of_same_left hs
+        · rename_i n _ _
+          have h := enterCalls_ok P ee f (List.replicate n.floor.toNat c) env false
+            (fun k => (v, k) :: env.binds) 0 (s.readLimit ee lim env.ctx).2.pend.length true (s.readLimit ee lim env.ctx).2
+          split
+          · rename_i hall; exact (h.toFin hall).of_same_left hs
+          · exact h.toPar.of_same_left hs
 theorem enterBlk_ok (P : Prog) (ee : EE) : (f : Nat) → (b : List Stmt) → (env : Env) → (s : St) →
     EnterOk s (enterBlk P ee f b env s).1 (enterBlk P ee f b env s).2
   | 0, _, _, s => by simp only [enterBlk]; exact EnterOk.stuck s _
